@@ -70,16 +70,20 @@ class UnitResult:
         self.wall = 0.0
         self.raw = ""
         self.rlimit_retry = False
+        self.items_sha = None
+        self.instability_retries = []
 
     def to_dict(self):
         return {k: v for k, v in self.__dict__.items() if k != "raw"}
 
 
-def run_verus(path, logdir=None, rlimit=None, multiple_errors=8, threads=4):
+def run_verus(path, logdir=None, rlimit=None, multiple_errors=8, threads=4, smt_seed=None):
     cmd = [VERUS, os.path.basename(path), "--output-json", "--time", "--multiple-errors",
            str(multiple_errors), "--error-format=json", "--num-threads", str(threads)]
     if rlimit:
         cmd += ["--rlimit", str(rlimit)]
+    if smt_seed is not None:
+        cmd += ["--smt-option", "smt.random_seed=%d" % smt_seed, "--smt-option", "sat.random_seed=%d" % smt_seed]
     if logdir:
         shutil.rmtree(logdir, ignore_errors=True)
         cmd += ["--log", "smt", "--log-dir", logdir]
@@ -265,7 +269,7 @@ def run_probe(spec, repo, bdir, gen_name, rl):
                            if f["gen_lines"][0] <= ln <= f["gen_lines"][1]), "?")} for ln in missing]}
 
 
-def run_unit(unit, repo=REPO, tier="quick", probe=True, rlimit=None, keep_log=True, workdir="_unit"):
+def run_unit(unit, repo=REPO, tier="quick", probe=True, rlimit=None, keep_log=True, workdir="_unit", smt_seed=None):
     cfg = CONFIG["units"][unit]
     res = UnitResult(unit)
     t0 = time.time()
@@ -282,6 +286,7 @@ def run_unit(unit, repo=REPO, tier="quick", probe=True, rlimit=None, keep_log=Tr
         return res
     res.functions = meta["functions"]
     res.items = meta["items"]
+    res.items_sha = hashlib.sha256("".join(sorted(i.get("sha256", "") for i in meta["items"])).encode()).hexdigest()
     with open(out) as f:
         gen_lines = f.read().split("\n")
     res.trusted = scan_trusted(gen_lines, meta["origin"])
@@ -304,7 +309,7 @@ def run_unit(unit, repo=REPO, tier="quick", probe=True, rlimit=None, keep_log=Tr
     if probe and cfg.get("probe", True):
         # the vacuity probe is an independent Verus run: start it concurrently
         probe_future = _PROBE_POOL.submit(run_probe, spec, repo, bdir, gen_name, rl)
-    r = run_verus(out, logdir=logdir, rlimit=rl)
+    r = run_verus(out, logdir=logdir, rlimit=rl, smt_seed=smt_seed)
     # Optional spec lines (`//?opt`): an invariant that names a local variable which a later edit
     # of the code removed is dropped (and recorded) instead of making the whole unit undecided.
     res.dropped_optional = []
@@ -426,6 +431,23 @@ def known_findings():
     return kf.get("findings", [])
 
 
+def machinery_sha():
+    """Hash of everything the generated files depend on besides /repo: specs, prelude, extractor."""
+    h = hashlib.sha256()
+    for d in ("specs", "specs/common", "prelude"):
+        dd = os.path.join(VERIF, d)
+        for fn_ in sorted(os.listdir(dd)):
+            pth = os.path.join(dd, fn_)
+            if os.path.isfile(pth):
+                h.update(fn_.encode())
+                with open(pth, "rb") as f:
+                    h.update(f.read())
+    for fn_ in ("tools/extract.py", "tools/rustlex.py"):
+        with open(os.path.join(VERIF, fn_), "rb") as f:
+            h.update(f.read())
+    return h.hexdigest()
+
+
 def baseline():
     return load_json(os.path.join(VERIF, "baseline_obligations.json"), {"functions": {}})
 
@@ -454,6 +476,22 @@ def write_replay(prop, failure, unit_res, counterexample=None, oracle=None):
     return p
 
 
+def unchanged_input(u, r, fl, base, bfull):
+    """True iff the failing function's own text, the unit's extracted types/constants and the
+    machinery (specs, prelude, extractor) are all identical to the committed baseline."""
+    if bfull.get("machinery_sha") != machinery_sha():
+        return False
+    bu = bfull.get("units", {}).get(u)
+    if not bu or bu.get("items_sha") != r.items_sha:
+        return False
+    key = "%s::%s" % (u, fl["function"].replace(" ", ""))
+    want = base.get(key, {}).get("sha256")
+    if not fl.get("extracted"):
+        return True     # hand-written lemma / spec: its text is part of the machinery hash
+    fnmeta = next((f for f in r.functions if f["qualified"] == fl["function"]), None)
+    return bool(fnmeta) and want is not None and fnmeta.get("sha256") == want
+
+
 def check_property(prop, tier, seed, jobs=4):
     pc = CONFIG["properties"].get(prop)
     if pc is None:
@@ -468,7 +506,9 @@ def check_property(prop, tier, seed, jobs=4):
         futs = {ex.submit(run_unit, u, REPO, tier, True, None, False, prop + os.environ.get("VERIF_BUILD_TAG", "")): u for u in units}
         for fu in concurrent.futures.as_completed(futs):
             results[futs[fu]] = fu.result()
-    base = baseline()["functions"]
+    bfull = baseline()
+    base = bfull["functions"]
+    unstable = {}
     kfs = [k for k in known_findings() if k.get("status") == "known"]
     violations = []
     known_hits = []
@@ -492,7 +532,28 @@ def check_property(prop, tier, seed, jobs=4):
                 undecided.append((u, "failure in %s which is not in the committed baseline of discharged obligations: %s"
                                   % (key, fl["message"])))
                 continue
+            if unchanged_input(u, r, fl, base, bfull):
+                unstable.setdefault(u, []).append(fl)
+                continue
             violations.append((r, fl))
+    # Stability rule.  Verification is modular: an obligation of function f depends on f's own text,
+    # on the types/constants it uses and on the spec files - not on the bodies of other functions.
+    # If all of these are byte-identical to the committed baseline (on which f verified), a failure
+    # of f cannot be caused by the change under test; it is a solver instability triggered by
+    # unrelated text in the same file.  Such failures are retried with other solver seeds; if they
+    # persist they are reported as UNDECIDED, never as a violation.
+    for u, fls in unstable.items():
+        cured = False
+        for sd in (1, 2):
+            r2 = run_unit(u, REPO, tier, False, None, False, prop + os.environ.get("VERIF_BUILD_TAG", "") + "_retry", smt_seed=sd)
+            still = [f2 for f2 in r2.failures if any(f2["function"] == f1["function"] for f1 in fls)]
+            results[u].instability_retries.append({"seed": sd, "status": r2.status, "still_failing": [f2["obligation"] for f2 in still]})
+            if r2.status != "undecided" and not still:
+                cured = True
+                break
+        if not cured:
+            undecided.append((u, "solver instability: %s failed although the function, its types and the spec files are identical to the baseline on which it verified (retried with 2 other seeds)"
+                              % ", ".join(sorted(set(f1["obligation"] for f1 in fls)))))
     # Kani parts (thorough, or quick when cheap) are attached by run_kani
     kani_results = []
     if pc.get("kani") and (tier == "thorough" or pc.get("kani_quick")):
@@ -688,6 +749,7 @@ def main():
 def update_baseline():
     """Record which functions verify on the current tree (run on the pinned tree only)."""
     fnmap = {}
+    unitmap = {}
     for u in CONFIG["units"]:
         r = run_unit(u, REPO, "quick", probe=False, workdir="_baseline")
         kobl = set(k["obligation"] for k in known_findings() if k.get("status") == "known")
@@ -703,11 +765,13 @@ def update_baseline():
                 m = re.match(r"\s*(?:pub\s+)?(?:broadcast\s+)?proof\s+fn\s+(\w+)", line)
                 if m:
                     names.append(m.group(1))
+        shas = dict((f["qualified"].replace(" ", ""), f.get("sha256")) for f in r.functions)
         for n in names:
             if n not in failed:
-                fnmap["%s::%s" % (u, n)] = {"labels": r.labels.get(n, [])}
+                fnmap["%s::%s" % (u, n)] = {"labels": r.labels.get(n, []), "sha256": shas.get(n)}
+        unitmap[u] = {"items_sha": r.items_sha}
     with open(os.path.join(VERIF, "baseline_obligations.json"), "w") as f:
-        json.dump({"functions": fnmap}, f, indent=1, sort_keys=True)
+        json.dump({"functions": fnmap, "units": unitmap, "machinery_sha": machinery_sha()}, f, indent=1, sort_keys=True)
     print("baseline: %d functions" % len(fnmap))
     return 0
 
